@@ -28,6 +28,31 @@ Definition is_simple (s : stmt) : bool :=
 Definition simple_opt (o : option stmt) : bool :=
   match o with Some s => is_simple s | None => true end.
 
+(** Case clauses of the proved region: with a tag, only the first expression of a clause may be an
+    operator expression; without a tag a clause has one condition (negation of switch-case-list). *)
+Definition ce_ok (tagged : bool) (ce : cexprs) : bool :=
+  match ce with
+  | CDefault => true
+  | CInts (_ :: rest) => tagged && forallb is_leaf rest
+  | CBools [_] => negb tagged
+  | _ => false
+  end.
+
+Definition is_default (c : stmt) : bool := match c with SCase CDefault _ _ => true | _ => false end.
+
+(** The clause list: only case clauses, a default clause only in last position (negation of
+    switch-default-order), no fallthrough (not proved yet). *)
+Fixpoint shape_ok (tagged : bool) (cls : list stmt) : bool :=
+  match cls with
+  | [] => true
+  | c :: rest =>
+      match c with
+      | SCase ce _ ft =>
+          ce_ok tagged ce && negb ft && (match rest with [] => true | _ => negb (is_default c) end) && shape_ok tagged rest
+      | _ => false
+      end
+  end.
+
 (** The region where the theorem holds; each clause is the negation of a known-finding region:
     - not [for init; ; {}]                                   (for-init-only)
     - a 3-clause for has a non-empty body                     (loop-empty-body)
@@ -45,7 +70,16 @@ Fixpoint wf (s : stmt) {struct s} : bool :=
       && negb (is_some init && negb (is_some c) && negb (is_some post))
       && (negb (has_lv init c post) || negb (match body with [] => true | _ => false end))
       && match loopvar_of init c post with Some x => forallb (na (Nat.eqb x)) body | None => true end
-  | SSwitch _ _ _ | SCase _ _ _ => false
+  | SSwitch init tag cls =>
+      (* at least one clause (switch-empty); after an init statement the tag is a variable or a literal
+         (switch-init-tag); a case clause occurs nowhere else *)
+      simple_opt init && wf_opt init
+      && match init, tag with Some _, Some t => is_leaf t | _, _ => true end
+      && match cls with [] => false | _ => true end
+      && shape_ok (is_some tag) cls
+      && match tag with None => true | Some _ => false end
+      && forallb (fun c => match c with SCase _ body _ => forallb wf body | _ => false end) cls
+  | SCase _ _ _ => false
   | _ => true
   end.
 
